@@ -157,30 +157,41 @@ where
     B: RtcpPacketWriter + 'a,
 {
     match wrap {
-        "d" => observe(&b),
-        "pb" => observe(&into_pb(b)),
-        "comp" => observe(&Compound::builder().add_packet(b)),
+        "d" => observe(&b, false),
+        "pb" => observe(&into_pb(b), false),
+        "comp" => observe(&Compound::builder().add_packet(b), true),
         s => Err(format!("bad wrap {}", s)),
     }
 }
 
-fn observe(w: &dyn W) -> Result<Kvs, String> {
+fn observe(w: &dyn W, compound: bool) -> Result<Kvs, String> {
     let size = guard(|| w.calc());
     let n = match &size {
-        Ok(Ok(n)) => *n,
-        _ => 0,
+        Ok(Ok(n)) => Some(*n),
+        _ => None,
     };
-    let mut buf = vec![0xaau8; n];
+    let mut buf = vec![0xaau8; n.unwrap_or(0)];
     let r = guard(|| w.write(&mut buf));
     let size_obs = match size {
         Ok(Ok(n)) => crate::ok(Obs::I(n)),
         Ok(Err(e)) => crate::err(crate::werr(&e)),
         Err(()) => Obs::S("PANIC"),
     };
-    Ok(vec![
+    // what was written (into an exact-size buffer prefilled with 0xaa), parsed back
+    let mut rt: Kvs = vec![];
+    if let (Some(n), Ok(Ok(wn))) = (n, &r) {
+        let img = &buf[..(*wn).min(n)];
+        let kv = if compound { crate::run_compound(img) } else { crate::run_packet(img) };
+        for (k, v) in kv {
+            rt.push((format!("rt.{}", k), v));
+        }
+    }
+    let mut out = vec![
         ("size".to_string(), size_obs),
         ("writes".to_string(), Obs::L(vec![Obs::L(vec![wres(r), Obs::B(buf)])])),
-    ])
+    ];
+    out.extend(rt);
+    Ok(out)
 }
 
 fn item_from_hist(h: &ItemHist) -> SdesItemBuilder<'_> {
